@@ -285,3 +285,77 @@ func TestC19TypedInferTotal(t *testing.T) {
 		})
 	})
 }
+
+// Typed inferable targets, sound side: a target inferred from a well-formed type of its own
+// shape - also composites in which more than one component takes parameters - reports a type
+// that does not conflict with the requested one (either way round) and that carries every
+// requested parameter: enum definitions, precisions and zones of all components.
+func TestC19TypedInferSound(t *testing.T) {
+	st := stats.G()
+	rapid.Check(t, func(rt *rapid.T) {
+		enumDef := func(label string) string {
+			base := rapid.SampledFrom([]string{"Enum8", "Enum16"}).Draw(rt, label+"-base")
+			n := rapid.IntRange(1, 3).Draw(rt, label+"-members")
+			names := rapid.Permutation([]string{"a", "b c", "", "x", " y"}).Draw(rt, label+"-names")
+			var parts []string
+			for i := 0; i < n; i++ {
+				parts = append(parts, fmt.Sprintf("'%s' = %d", names[i], (i+1)*rapid.SampledFrom([]int{1, -1, 7}).Draw(rt, label+"-sign")))
+			}
+			return base + "(" + strings.Join(parts, ", ") + ")"
+		}
+		dt := func(label string) string {
+			return rapid.SampledFrom([]string{"DateTime", "DateTime('UTC')"}).Draw(rt, label)
+		}
+		dt64 := func(label string) string {
+			p := rapid.IntRange(0, 9).Draw(rt, label+"-precision")
+			if rapid.Bool().Draw(rt, label+"-zone") {
+				return fmt.Sprintf("DateTime64(%d, 'UTC')", p)
+			}
+			return fmt.Sprintf("DateTime64(%d)", p)
+		}
+		e1, e2, d, d64 := enumDef("enum"), enumDef("enum2"), dt("datetime"), dt64("datetime64")
+		type pair struct {
+			name   string
+			col    proto.Inferable
+			typ    string
+			params []string // must all appear in the reported type
+		}
+		pairs := []pair{
+			{"ColEnum", new(proto.ColEnum), e1, []string{e1}},
+			{"ColDateTime", new(proto.ColDateTime), d, nil},
+			{"ColDateTime64", new(proto.ColDateTime64), d64, []string{d64[:strings.IndexAny(d64, ",)")]}},
+			{"Array(Enum)", proto.NewArray[string](new(proto.ColEnum)), "Array(" + e1 + ")", []string{e1}},
+			{"Array(Array(DateTime64))", proto.NewArray[[]time.Time](proto.NewArray[time.Time](new(proto.ColDateTime64))), "Array(Array(" + d64 + "))", []string{d64[:strings.IndexAny(d64, ",)")]}},
+			{"Map(String, Enum)", proto.NewMap[string, string](new(proto.ColStr), new(proto.ColEnum)), "Map(String, " + e1 + ")", []string{e1}},
+			{"Map(Enum, DateTime64)", proto.NewMap[string, time.Time](new(proto.ColEnum), new(proto.ColDateTime64)), "Map(" + e1 + ", " + d64 + ")", []string{e1, d64[:strings.IndexAny(d64, ",)")]}},
+			{"Map(DateTime, Enum)", proto.NewMap[time.Time, string](new(proto.ColDateTime), new(proto.ColEnum)), "Map(" + d + ", " + e1 + ")", []string{e1}},
+			{"Map(Enum, Enum)", proto.NewMap[string, string](new(proto.ColEnum), new(proto.ColEnum)), "Map(" + e1 + ", " + e2 + ")", []string{e1, e2}},
+			{"Map(Enum, Array(DateTime64))", proto.NewMap[string, []time.Time](new(proto.ColEnum), proto.NewArray[time.Time](new(proto.ColDateTime64))), "Map(" + e1 + ", Array(" + d64 + "))", []string{e1, d64[:strings.IndexAny(d64, ",)")]}},
+			{"Map(DateTime, Map(String, Enum))", proto.NewMap[time.Time, map[string]string](new(proto.ColDateTime), proto.NewMap[string, string](new(proto.ColStr), new(proto.ColEnum))), "Map(" + d + ", Map(String, " + e2 + "))", []string{e2}},
+			{"Tuple(Enum, String, ts DateTime64)", proto.ColTuple{new(proto.ColEnum), new(proto.ColStr), proto.Named[time.Time](new(proto.ColDateTime64), "ts")}, "Tuple(" + e1 + ", String, ts " + d64 + ")", []string{e1, d64[:strings.IndexAny(d64, ",)")]}},
+		}
+		p := pairs[rapid.IntRange(0, len(pairs)-1).Draw(rt, "target")]
+		if rapid.Bool().Draw(rt, "inferred-before") {
+			// a target that was inferred from another type of the same shape before
+			_ = safely(func() error {
+				return p.col.Infer(proto.ColumnType(strings.NewReplacer(e1, "Enum8('old' = 9)", e2, "Enum16('older' = 99)", d64, "DateTime64(1)").Replace(p.typ)))
+			})
+		}
+		if err := safely(func() error { return p.col.Infer(proto.ColumnType(p.typ)) }); err != nil {
+			rt.Fatalf("%s.Infer(%q): %v", p.name, p.typ, err)
+		}
+		got := p.col.(interface{ Type() proto.ColumnType }).Type()
+		if got.Conflicts(proto.ColumnType(p.typ)) || proto.ColumnType(p.typ).Conflicts(got) {
+			rt.Fatalf("%s inferred from %q reports %q, which conflicts with it", p.name, p.typ, got)
+		}
+		for _, want := range p.params {
+			if !strings.Contains(string(got), want) {
+				rt.Fatalf("%s inferred from %q reports %q: the parameter %q was not adopted", p.name, p.typ, got, want)
+			}
+		}
+		st.Case(stats.Hash("tsound", p.name, p.typ), len(p.params) > 0, func() any {
+			return map[string]any{"kind": "typed-infer-sound", "target": p.name, "type": p.typ, "reported": string(got)}
+		})
+		st.Label("typed-target:" + p.name)
+	})
+}
